@@ -15,6 +15,7 @@ import itertools
 import random
 import re
 
+from vf import c08_uri as U
 from vf import wamp_grammar as G
 from vf.runner import h
 
@@ -30,7 +31,11 @@ RULE = ("parse level: for each of the 25 classes, every valid skeleton (minimal,
         "undefined as delivered by CBOR/UBJSON decoders), key deleted, nested corruptions of forward_for / roles / id lists, "
         "(forward_for chains of 2-4 hops with one malformed hop of 27 kinds at every position; id/str lists with the malformed element first, "
         "middle, last), length -2..+2, unknown keys; URI level: every string up to length 5 (6 thorough) over {a z 0 _ . # space A e-acute "
-        "newline} through check_or_raise_uri in all six modes and through parse() at every URI position kind; serializer "
+        "newline} through check_or_raise_uri in all six modes and through parse() at every URI position kind, plus 6400 random/long ones; "
+        "character classes: EVERY code point (quick: the BMP + astral separators/digits/format characters; thorough: all 0x110000) placed inside, "
+        "before, after and as a whole component of a URI through check_or_raise_uri in the six modes, and the 25 Unicode White_Space code points + "
+        "10 space-like (U+001C-1F, zero-width/format) + 10 control samples at every URI place of the grammar table (17: positions and options of "
+        "type uri, SUBSCRIBE/REGISTER per match policy) x 4 placements through parse() and as real octets through the 8 serializer variants; serializer "
         "level (JSON, MsgPack, CBOR, UBJSON x batched/unbatched): every type code of a corpus, non-list top levels, every "
         "single-byte mutation (quick: 6 per offset, thorough: all 255), truncation and extension of valid encodings of every "
         "class, all 1-byte and (sampled; thorough: all) 2-byte strings, random and grammar-token noise, nesting to depth 10^5, "
@@ -52,8 +57,8 @@ RULE = ("parse level: for each of the 25 classes, every valid skeleton (minimal,
         "distinct = (class, place, input label, skeleton) resp. hash of the octets.")
 ASSUMPTIONS = [
     "allowed exceptions: autobahn.wamp.exception.ProtocolError and InvalidUriError (siblings below wamp.exception.Error) and their subclasses; anything else escaping parse()/unserialize()/check_or_raise_*() is a violation",
-    "must-reject class (vf/wamp_grammar.py): non-int or out-of-range (0..2^53) value at an id position; non-string URI, or string with ASCII whitespace / '#' / an empty component where the position's (match-dependent) policy forbids it; non-dict at a dict position; known option/detail with a value of the wrong JSON type or outside its enumeration; unknown or non-int type code; inadmissible element count; non-list top level",
-    "GREY (either outcome accepted, totality still required): bool where an int is expected (Python bool is an int subclass); JSON null as option value; range of ids carried in options (callee, caller, publisher, exclude lists..); negative timeout / concurrency<1; non-list args, non-dict kwargs, opaque payload without enc_algo; enc_* keys outside payload mode; unknown enc_algo/enc_serializer identifiers; dicts with non-str keys; unknown role features, feature null; empty/missing roles; forward_for authid null; unicode-only whitespace in URIs; ERROR.request_type naming a non-request message; SUBSCRIBE topic with empty components under any match policy (the library validates it with empties allowed irrespective of 'match'); strict URI mode is only asserted through check_or_raise_uri(strict=True) since parse() documents loose mode",
+    "must-reject class (vf/wamp_grammar.py): non-int or out-of-range (0..2^53) value at an id position; non-string URI, or string with whitespace (ASCII, or a non-ASCII code point with the Unicode White_Space property: U+0085 U+00A0 U+1680 U+2000-200A U+2028 U+2029 U+202F U+205F U+3000 - the WAMP spec forbids 'whitespace characters' in URI components; the list is hand-written in vf/c08_uri.py and cross-checked against unicodedata at start-up) / '#' / an empty component where the position's (match-dependent) policy forbids it; non-dict at a dict position; known option/detail with a value of the wrong JSON type or outside its enumeration; unknown or non-int type code; inadmissible element count; non-list top level",
+    "GREY (either outcome accepted, totality still required): bool where an int is expected (Python bool is an int subclass); JSON null as option value; range of ids carried in options (callee, caller, publisher, exclude lists..); negative timeout / concurrency<1; non-list args, non-dict kwargs, opaque payload without enc_algo; enc_* keys outside payload mode; unknown enc_algo/enc_serializer identifiers; dicts with non-str keys; unknown role features, feature null; empty/missing roles; forward_for authid null; space-like code points that are not Unicode White_Space in URIs (U+001C-1F which only Python's \\s/isspace() counts, U+180E, zero-width and format characters U+200B-200D U+2060 U+FEFF); Unicode decimal digits other than 0-9 in strict mode; ERROR.request_type naming a non-request message; SUBSCRIBE topic with empty components under any match policy (the library validates it with empties allowed irrespective of 'match'); strict URI mode is only asserted through check_or_raise_uri(strict=True) since parse() documents loose mode",
     "marshal equivalence is modulo unknown option keys, null/default/empty option values, enc_* keys outside payload mode, unknown role features, empty trailing args/kwargs (any falsy value), trailing empty optional dict, tuple==list",
     "parse() is called with the type code it is documented to be dispatched on; other type codes go through ISerializer.unserialize()",
     "an exception is attributed to the first option/position whose neutralisation (delete the key / put a valid value) makes the exception disappear",
@@ -83,6 +88,14 @@ DECIDING = {
     "decoder_value_kinds": 15,
     "ff_nonlast_malformed_judged": 5000,     # forward_for chains of 2..4 hops whose malformed hop is NOT the last one
     "ff_nonlast_classes": 13,
+    # character-class dimension of the URI alphabet (every code point x 4 placements x 6 modes; White_Space at every URI place)
+    "uri_charclass_judged": lambda tier: 1500000 if tier == "quick" else 26000000,
+    "uri_unicode_ws_rejections_agreed": 228,      # 19 non-ASCII White_Space code points x 4 placements x 3 loose modes
+    "uri_unicode_ws_chars": 19,
+    "uri_unicode_ws_modes": 3,
+    "uri_unicode_ws_parse_rejected": 1292,        # 19 code points x 17 URI places x 4 placements, through parse()
+    "uri_unicode_ws_sites": 17,
+    "uri_unicode_ws_octets_rejected": 2584,       # 19 code points x 17 URI places x 8 serializer variants, as real octets
     # thorough-only depth (absent = 0 in quick)
     "pair_cases": lambda tier: 0 if tier == "quick" else 500000,
     "triple_cases": lambda tier: 0 if tier == "quick" else 100000,
@@ -175,6 +188,8 @@ def corpus():
         ("bytes-empty", b""), ("bytes", b"ab"), ("list-empty", []), ("list-1", [1]), ("list-list", [[]]), ("list-str", ["a"]),
         ("list-mixed", [1, "a", None]), ("list-dict", [{}]), ("dict-empty", {}), ("dict-a1", {"a": 1}), ("dict-int-key", {1: 2}),
         ("dict-nested", {"a": {"b": [1, {}]}}), ("list-nested", [{"a": []}]),
+        # non-ASCII White_Space (must-reject at URI places), Python-only whitespace U+001C (grey)
+        ("str-nbsp", "a\u00a0b"), ("str-u2028-last", "a.b\u2028"), ("str-x1c", "a\x1cb"),
     ]
     for k, v in exotic_values().items():
         c.append((k, v))
@@ -346,7 +361,7 @@ class Monitor:
         # 0. places the oracle flags: replace by a valid value - each one alone, then (several places responsible at
         #    once, e.g. thorough tier's pairs) cumulatively in wire order: the place whose repair makes the exception
         #    disappear while all earlier ones are already repaired reproduces the exception on its own
-        offs = G.offenders(spec, wire)
+        offs = U.offenders(spec, wire)
         for cumulative in (False, True):
             w = list(wire)
             for where, _, _ in offs:
@@ -416,7 +431,7 @@ class Monitor:
         R.count("evaluations")
         R.count("parse_calls")
         R.seen("classes", spec.name)
-        offs = G.offenders(spec, wire)
+        offs = U.offenders(spec, wire)
         rejecting = [o for o in offs if o[1] == "reject"]
         if rejecting:
             R.count("must_reject_inputs")
@@ -554,7 +569,8 @@ class Monitor:
                     yield "".join(tup)
 
     URI_RANDOM_ALPHABET = list("abcxyz019__...") + ["#", " ", "\t", "\n", "\r", "\x0b", "\x0c", "\x00", "\x1c", "\x85", "A", "Z", "é", "ß", "\u00a0",
-                                                   "\u2028", "\u3000", "\u0663", "\U0001f600", "-", "@", "/", ":", "%", "*", "..", ".#", "com", "example"]
+                                                   "\u2028", "\u3000", "\u0663", "\U0001f600", "-", "@", "/", ":", "%", "*", "..", ".#", "com", "example"] + \
+        sorted(U.NONASCII_WS) + [chr(c) for c in U.SPACE_LIKE_GREY_CPS]
 
     def random_uris(self, rng, count):
         A = self.URI_RANDOM_ALPHABET
@@ -573,19 +589,97 @@ class Monitor:
                 s = "".join(rng.choice(good + ".") for _ in range(rng.choice([8, 16, 255, 256, 1000, 5000]))) + rng.choice(["", "", ".", "\n", " ", "#", "\r\n", "\x00"])
             yield s
 
-    def workload_uri(self, part, parts, tier, seed=0):
-        R, M = self.R, self.M
-        maxlen = 5 if tier == "quick" else 7
+    @staticmethod
+    def uri_modes():
+        """The six modes of check_or_raise_uri: [(strict, empty policy, kwargs, label)]"""
         modes = []
         for strict in (False, True):
             for empty, kw in (("none", {}), ("last", {"allow_last_empty": True}), ("any", {"allow_empty_components": True})):
-                modes.append((strict, empty, dict(kw, strict=strict)))
+                modes.append((strict, empty, dict(kw, strict=strict), "%s-%s" % ("strict" if strict else "loose", empty)))
+        return modes
+
+    # -- workload B2: the character-class dimension of the URI alphabet --------------------------------------------
+    def workload_uri_charclass(self, part, parts, tier, seed=0):
+        """EVERY code point (quick: the BMP + astral separators/digits/format characters; thorough: all 0x110000) inside,
+        before, after and as a whole URI component, through check_or_raise_uri in the six modes; then the White_Space,
+        space-like and control-sample code points at EVERY URI place of the message grammar through parse()."""
+        R, M = self.R, self.M
+        check, allowed, uri_judge = M.check_or_raise_uri, self.allowed, U.uri_judge
+        modes4 = self.uri_modes()
+        n_judged = n_rej = n_acc = n_ws_rej = n_grey = 0
+        ws_seen, ws_modes = set(), set()
+        for k, cp in enumerate(U.codepoints(tier)):
+            if k % parts != part:
+                continue
+            ch = chr(cp)
+            for tname, tpl in U.TEMPLATES:
+                s = tpl % ch
+                for strict, empty, kw, mode in modes4:
+                    n_judged += 1
+                    verdict, icls = uri_judge(s, strict, empty)
+                    try:
+                        check(s, "t", **kw)
+                        acc = True
+                    except allowed:
+                        acc = False
+                    except Exception as e:
+                        R.violation("C08/check_or_raise_uri/%s/%s" % (mode, type(e).__name__),
+                                    "check_or_raise_uri(%r, %s) raised %r" % (s, kw, e), {"uri": s, "codepoint": "U+%04X" % cp},
+                                    {"kind": "uri", "uri": s, "kw": kw})
+                        continue
+                    if verdict == "reject":
+                        if acc:
+                            R.violation("C08/check_or_raise_uri/%s/accepted-%s" % (mode, icls),
+                                        "check_or_raise_uri(%r, %s) accepts a string the URI grammar of this mode forbids (%s, U+%04X %s)" % (
+                                            s, kw, icls, cp, tname),
+                                        {"uri": s, "mode": mode, "codepoint": "U+%04X" % cp, "template": tname}, {"kind": "uri", "uri": s, "kw": kw})
+                        else:
+                            n_rej += 1
+                            if icls == U.ICLS:
+                                n_ws_rej += 1
+                                ws_seen.add(cp)
+                                ws_modes.add(mode)
+                    elif acc:
+                        n_acc += 1
+                    if verdict == "grey":
+                        n_grey += 1
+            self.nt("uri-cp|%04X" % cp)
+        R.count("evaluations", n_judged)
+        R.count("uri_charclass_judged", n_judged)
+        R.count("uri_charclass_rejections_agreed", n_rej)
+        R.count("uri_charclass_accepted_agreed", n_acc)
+        R.count("uri_charclass_grey", n_grey)
+        R.count("uri_unicode_ws_rejections_agreed", n_ws_rej)
+        for cp in ws_seen:
+            R.seen("uri_unicode_ws_chars", "U+%04X" % cp)
+        for mode in ws_modes:
+            R.seen("uri_unicode_ws_modes", mode)
+        # through parse() at every URI place of the grammar table (positions and options of type uri, each match policy)
+        cps = sorted(U.WHITE_SPACE_CPS) + U.SPACE_LIKE_GREY_CPS + U.CONTROL_SAMPLE_CPS
+        n = 0
+        for label, cname, mk in U.uri_sites():
+            spec = G.BY_NAME[cname]
+            for cp in cps:
+                for tname, tpl in U.TEMPLATES:
+                    n += 1
+                    if n % parts != part:
+                        continue
+                    s = tpl % chr(cp)
+                    out = self.parse_case(spec, mk(s), "uri-cp=U+%04X/%s" % (cp, tname), "uri-site:" + label)
+                    if chr(cp) in U.NONASCII_WS:
+                        R.count("uri_unicode_ws_parse_cases")
+                        if out == "rejected":
+                            R.count("uri_unicode_ws_parse_rejected")
+                            R.seen("uri_unicode_ws_sites", label)
+
+    def workload_uri(self, part, parts, tier, seed=0):
+        R, M = self.R, self.M
+        maxlen = 5 if tier == "quick" else 7
         strings = self.uri_strings(maxlen, part, parts)
-        if tier == "thorough":
-            rng = random.Random("%s/c08/uri/%d" % (seed, part))
-            strings = itertools.chain(strings, self.random_uris(rng, 1600000 // parts))
-        modes4 = [(strict, empty, kw, "%s-%s" % ("strict" if strict else "loose", empty)) for strict, empty, kw in modes]
-        uri_judge, check, allowed = G.uri_judge, M.check_or_raise_uri, self.allowed
+        rng = random.Random("%s/c08/uri/%d" % (seed, part))
+        strings = itertools.chain(strings, self.random_uris(rng, (1600000 if tier == "thorough" else 6400) // parts))
+        modes4 = self.uri_modes()
+        uri_judge, check, allowed = U.uri_judge, M.check_or_raise_uri, self.allowed
         n_judged = n_rej = n_acc = n_over = 0
         rej_classes, over_examples = set(), set()
         for s in strings:
@@ -672,8 +766,8 @@ class Monitor:
                 elif fname in ("check_or_raise_uri", "check_or_raise_realm_name"):
                     if type(v) is not str:
                         bad = G.vclass(v)
-                    elif fname == "check_or_raise_uri" and G.uri_judge(v)[0] == "reject":
-                        bad = G.uri_judge(v)[1]
+                    elif fname == "check_or_raise_uri" and U.uri_judge(v)[0] == "reject":
+                        bad = U.uri_judge(v)[1]
                 elif fname == "check_or_raise_extra":
                     if type(v) is not dict:
                         bad = G.vclass(v)
@@ -762,7 +856,7 @@ class Monitor:
                 continue
             spec = G.BY_CODE[raw[0]]
             R.count("accepted_messages_judged")
-            rejecting = [o for o in G.offenders(spec, raw) if o[1] == "reject"]
+            rejecting = [o for o in U.offenders(spec, raw) if o[1] == "reject"]
             if type(m).__name__ != spec.name:
                 R.violation("C08/envelope/type-code/dispatched-to-wrong-class", "type code %d produced a %s" % (raw[0], type(m).__name__),
                             {"bytes": data[:300].hex()}, replay)
@@ -925,6 +1019,24 @@ class Monitor:
                         continue
                     R.count("ff_chains_as_octets")
                     self.unser_case(sid, ser, batched, data, "structured@%s.forward_for=%s" % (spec.name, lab))
+            # D1e: non-ASCII White_Space / space-like code points inside a URI at every URI place, as REAL OCTETS of this format
+            cps = sorted(ord(c) for c in U.NONASCII_WS) + U.SPACE_LIKE_GREY_CPS[:5]
+            for si, (slabel, cname, mk) in enumerate(U.uri_sites()):
+                for ci, cp in enumerate(cps):
+                    n += 1
+                    if n % parts != part:
+                        continue
+                    tname, tpl = U.TEMPLATES[(si + ci) % len(U.TEMPLATES)]
+                    try:
+                        data = enc(mk(tpl % chr(cp)))
+                    except Exception:
+                        R.count("lib_encode_failed")
+                        continue
+                    out = self.unser_case(sid, ser, batched, data, "uri-cp@%s=U+%04X/%s" % (slabel, cp, tname))
+                    if chr(cp) in U.NONASCII_WS:
+                        R.count("uri_unicode_ws_octets_cases")
+                        if out == "rejected":
+                            R.count("uri_unicode_ws_octets_rejected")
             # D3: arbitrary octets
             if (hash(sid) + 0) % 1 == 0:
                 for b in range(256):
@@ -1032,7 +1144,7 @@ class Monitor:
         c = [("null", None), ("true", True), ("0", 0), ("1", 1), ("-1", -1), ("2^53+1", 2 ** 53 + 1), ("1.5", 1.5), ("str-empty", ""),
              ("str-a", "a"), ("str-a..b", "a..b"), ("str-nl", "a.b\n"), ("str-cryptobox", "cryptobox"), ("bytes-empty", b""), ("bytes", b"ab"),
              ("list-empty", []), ("list-1", [1]), ("dict-empty", {}), ("dict-a1", {"a": 1}), ("false", False), ("2^53", 2 ** 53), ("0.0", 0.0),
-             ("str-a.b", "a.b"), ("str-x_", "x_"), ("list-dict", [{}]), ("dict-int-key", {1: 2})]
+             ("str-a.b", "a.b"), ("str-x_", "x_"), ("list-dict", [{}]), ("dict-int-key", {1: 2}), ("str-nbsp", "a\u00a0b")]
         if "ndarray2" in G.EXOTIC:
             c.append(("ndarray2", G.EXOTIC["ndarray2"]))
         return c
@@ -1553,6 +1665,10 @@ def start(R):
         R.note("exception_hierarchy", "ProtocolError/InvalidUriError are not below wamp.exception.Error")
         ok = False
     R.note("exception_hierarchy", {"InvalidUriError_is_ProtocolError": issubclass(exception.InvalidUriError, exception.ProtocolError)})
+    ws_drift = U.selfcheck()
+    if ws_drift:
+        R.note("white_space_table_drift", ws_drift[:20])
+        ok = False
     if not ok:
         R.count("harness_in_sync", 0)
         return None
@@ -1590,6 +1706,7 @@ def run_shard(params, R):
     if tier == "thorough":
         limit_memory()
         timed("pairs", mon.workload_pairs, part, parts, seed)
+    timed("uri_charclass", mon.workload_uri_charclass, part, parts, tier, seed)
     timed("uri", mon.workload_uri, part, parts, tier, seed)
     timed("serializers", mon.workload_serializers, part, parts, tier, seed)
     if tier == "thorough":
@@ -1618,7 +1735,7 @@ def replay(case, R):
     elif kind == "uri":
         try:
             mon.M.check_or_raise_uri(case["uri"], "t", **case["kw"])
-            v, icls = G.uri_judge(case["uri"], case["kw"].get("strict", False),
+            v, icls = U.uri_judge(case["uri"], case["kw"].get("strict", False),
                                   "last" if case["kw"].get("allow_last_empty") else ("any" if case["kw"].get("allow_empty_components") else "none"))
             if v == "reject":
                 R.violation("C08/check_or_raise_uri/replay/accepted-%s" % icls, "accepted %r" % case["uri"], {}, case)
@@ -1633,7 +1750,9 @@ MANIFEST_ENTRY = {
              "option/detail is replaced, one at a time, by every value of a typed hostile corpus (all JSON/CBOR types, boundary "
              "integers, malformed URIs, nested corruptions of forward_for/roles/id lists, values only CBOR/UBJSON decoders produce), "
              "with wrong element counts and unknown keys; check_or_raise_uri is compared with a component-wise URI oracle on every "
-             "string up to length 5-6 over a 10-symbol alphabet in all six modes; every serializer (JSON, MsgPack, CBOR, UBJSON, "
+             "string up to length 5-6 over a 10-symbol alphabet in all six modes, and with every code point of the BMP (thorough: every code point) placed "
+             "inside/before/after/as a URI component - non-ASCII Unicode White_Space must be refused like ASCII whitespace, also at every URI place through "
+             "parse() and as real octets per serializer; every serializer (JSON, MsgPack, CBOR, UBJSON, "
              "batched/unbatched) receives unknown type codes, non-list top levels, single-byte mutations/truncations/extensions of "
              "valid encodings of every class, short exhaustive and random octet strings, nesting to depth 10^5, corrupted batch "
              "framing, and the values only one decoder produces (UBJSON typed arrays = numpy arrays, CBOR tags/undefined/sets, "
